@@ -1,6 +1,7 @@
 import Driver.Proto
 import PqModel.Codec
 import PqModel.Spec.BlockCodecs
+import PqModel.Spec.Inflate
 
 /-! C20 ops: run the pool model of compress/compress.go over a history with the toy stream
 family plugged in (the Go side plugs the same toy streams into the real
@@ -94,8 +95,28 @@ def blockOp (x : String) (f : List UInt8 → Except PqModel.Spec.BlockCodecs.Err
     | .ok out => s!"ok {toHex out}"
     | .error e => s!"err {showErr e}"
 
+def showInflateErr : PqModel.Spec.Inflate.Err → String
+  | .fuel => "fuel" | .truncated => "truncated" | .badBlockType => "bad-block-type"
+  | .badStoredLen => "bad-stored-len" | .badCode => "bad-code" | .badSymbol => "bad-symbol"
+  | .badDistance => "bad-distance" | .badLengths => "bad-lengths" | .oversubscribed => "oversubscribed"
+  | .noEndOfBlock => "no-end-of-block" | .badMagic => "bad-magic" | .badMethod => "bad-method"
+  | .badFlags => "bad-flags" | .badHeaderCrc => "bad-header-crc" | .badCrc => "bad-crc"
+  | .badSize => "bad-size"
+
+def inflateOp (x : String) (f : List UInt8 → Except PqModel.Spec.Inflate.Err (List UInt8)) : String :=
+  match parseHex? x with
+  | none => "bad-op"
+  | some b => match f b with
+    | .ok out => s!"ok {toHex out}"
+    | .error e => s!"err {showInflateErr e}"
+
 def handle (toks : List String) : Option String :=
   match toks with
+  /- spec readers of PqModel/Spec/Inflate.lean (RFC 1951 / RFC 1952) and the stored-block
+     reference encoder -/
+  | ["gzip.decode", x] => some <| inflateOp x PqModel.Spec.Inflate.gunzip
+  | ["inflate.decode", x] => some <| inflateOp x PqModel.Spec.Inflate.inflate
+  | ["gzip.stored", x] => some <| inflateOp x (fun b => .ok (PqModel.Spec.Inflate.gzipStored b))
   | "codec.run" :: cfg :: pol :: fuel :: ops => some <|
     match parseCfg? cfg, parseNat? fuel, ops.mapM parseCall? with
     | some cfg, some fuel, some calls =>
